@@ -21,7 +21,7 @@ import tempfile
 import numpy as np
 
 from . import qc
-from .common import REPO, VERIF, b2f, f2b
+from .common import REPO, VERIF, b2f, f2b, unbits
 from .qc import torch
 
 FILES = [
@@ -33,6 +33,8 @@ REQUIRED_THEOREMS = [
     "C19_row_is_binary_expansion", "C19_row_digit_sum", "C19_subspace_eq_row", "C19_index_roundtrip",
     "C19_state_roundtrip", "C19_index_equiv", "C19_index_lt", "C19_msb_first", "C19_size_guard", "C19_kron_index",
     "C19_table_roundtrip", "C19_table_squeezed", "C19_load_data_roundtrip", "C19_load_data_DM_roundtrip", "C19_refbasis",
+    "C19_table_ndmin2", "C19_numeric_table_ndmin2", "C19_load_data_shape", "C19_load_then_refbasis", "C19_position_k",
+    "C19_position_k_states", "C19_subspace_int64", "C19_size_guard_int",
 ]
 EXTRA_TRUSTED = [
     "numpy's decimal->float64 parser is a parameter of the model (token -> value table sent by the harness, computed with "
@@ -46,7 +48,12 @@ RULE = ("cases: (a) generate_hilbert_space for every n up to 8 (quick) / 12 (tho
         "before the next call on the same state, another state object, another size, the default call form, and before an internal use "
         "(rotate_psi_inner_prod); (b) subspace_vector for random "
         "(num,size) incl. num >= 2^size and size None/0; (c) _convert_basis_element_to_index on random 0/1 batches and 1-D vectors, "
-        "n up to 30; (d) np.kron ordering of rotate_psi / rotate_rho on random complex inputs; (e) random data files (N, n, basis "
+        "n up to 30; (d) np.kron ordering of rotate_psi / rotate_rho on random complex inputs; (d') one-hot-at-k family: psi(space), "
+        "probability(space), rho(space, space) (every entry, row/column orientation), rotate_psi / rotate_rho WITHOUT psi=/rho=, fidelity and KL "
+        "(plain and rotated) with the accepted target e_k, on all three state classes with random parameters, against numpy references built "
+        "from the parameters (brute-force partial trace, dense np.kron); (d'') negative / beyond-int64 / >62-bit arguments of subspace_vector "
+        "and generate_hilbert_space as outcome classes; (e) random data files (N >= 1, n >= 1: one-row and one-column files are ordinary cases "
+        "since F16; one 60 000-row file in the thorough tier; basis "
         "alphabets, many-digit and float32-midpoint targets, comment/blank lines, tabs, CRLF, one-row / one-column / empty / ragged / "
         "unparsable files) written to a temp dir and read back through load_data / load_data_DM; (f) extract_refbasis_samples on "
         "random bases patterns (none / all / some all-Z rows, multi-letter tokens, duplicate sample rows, wrong shapes). "
@@ -59,8 +66,8 @@ TH = {
     "index": "C19_index_roundtrip, C19_index_is_big_endian_sum, C19_index_equiv",
     "guard": "C19_size_guard, C19_effective_size",
     "kron": "C19_kron_index, C19_kron_index_finProd, C19_kron_stage_bit",
-    "load": "C19_load_data_roundtrip, C19_numeric_table_roundtrip, C19_table_roundtrip, C19_table_squeezed",
-    "loaddm": "C19_load_data_DM_roundtrip",
+    "load": "C19_load_data_roundtrip, C19_load_data_shape, C19_numeric_table_ndmin2, C19_table_ndmin2, C19_numeric_table_roundtrip, C19_table_squeezed",
+    "loaddm": "C19_load_data_DM_roundtrip, C19_numeric_table_ndmin2, C19_table_ndmin2",
     "ref": "C19_refbasis, C19_refbasis_sublist, C19_refbasis_errors",
 }
 
@@ -191,13 +198,16 @@ def space_case(ctx, case):
     except Exception as e:  # noqa: BLE001
         sp, err = None, errname(e)
     # ---- oracle: refused iff effective size > 20
-    ctx.oracle("size guard", (err == "ValueError") == (s > 20) and (err is None) == (s <= 20), case,
+    # "spaces beyond the size limit are refused": refused = some exception, whatever its type (the type is not part of the property)
+    ctx.oracle("size guard: refused (any exception) iff the effective size exceeds 20", (err is not None) == (s > 20), case,
                detail={"error": err, "eff_size": s}, sig="guard", theorem=TH["guard"])
+    if err is not None:
+        ctx.count(f"space:refusal_type={err}")
     ctx.count("space:" + ("refused" if err else "generated"))
     if err is not None:
         if ctx.driver is not None:
             m = ctx.driver.call("c19.rows", size=size, nv=nv, ks=[])
-            ctx.point("guard error kind", "property", err, m.get("error"), case, exact=True, sig="guard", theorem=TH["guard"])
+            ctx.point("guard: refused", "property", True, m.get("error") is not None, case, exact=True, sig="guard", theorem=TH["guard"])
         return
     ok_meta = tuple(sp.shape) == (2 ** s, s) and sp.dtype == torch.double
     ctx.oracle("space shape/dtype", ok_meta, case, detail={"shape": list(sp.shape), "dtype": str(sp.dtype)}, sig="space/shape")
@@ -498,6 +508,268 @@ def gen_alias_case(rng, thorough):
             "rot_n": rot_n, "rot_basis": basis, "psi_re": [rng.gauss(0, 1) for _ in range(D)], "psi_im": [rng.gauss(0, 1) for _ in range(D)]}
 
 
+# ================================================================= part 1c: position k of the arrays the library produces / accepts
+SQ2 = 2.0 ** -0.5
+UNITARY = {"X": np.array([[SQ2, SQ2], [SQ2, -SQ2]], dtype=complex),      # written out here, NOT read from the library's dictionary
+           "Y": np.array([[SQ2, -1j * SQ2], [SQ2, 1j * SQ2]], dtype=complex),
+           "Z": np.eye(2, dtype=complex)}
+
+
+def _arr(x, shape):
+    return np.asarray(x, dtype=np.float64).reshape(shape)
+
+
+def ref_wave(am, ph, n, h, rows):
+    """psi at the given 0/1 rows, from the parameters: amplitude exp(f_am/2), phase f_ph/2, f(v) = b.v + sum_j softplus(W v + c)_j"""
+    V = _arr(rows, (len(rows), n))
+
+    def f(p):
+        W, b, c = _arr(p["W"], (h, n)), _arr(p["b"], (n,)), _arr(p["c"], (h,))
+        return V @ b + np.logaddexp(0.0, V @ W.T + c).sum(-1)
+    return np.exp(0.5 * f(am)) * (np.exp(0.5j * f(ph)) if ph is not None else 1.0)
+
+
+def ref_rho(am, ph, n, h, a, rows):
+    """density matrix at the given rows by the brute-force partial trace over explicitly enumerated hidden and auxiliary units:
+    R[s, t] = sum_x phi(s, x) conj(phi(t, x)), phi = exp(L_am/2 + i L_ph/2), L(s, x) = log sum_hid exp(b.s + c.hid + d.x + hid.W s + x.U s)"""
+    V = _arr(rows, (len(rows), n))
+    X = _arr(qc.all_states(a), (2 ** a, a))
+    Hs = _arr(qc.all_states(h), (2 ** h, h))
+
+    def L(p):
+        W, U, b, c, d = _arr(p["W"], (h, n)), _arr(p["U"], (a, n)), _arr(p["b"], (n,)), _arr(p["c"], (h,)), _arr(p["d"], (a,))
+        joint = (V @ b)[:, None, None] + (Hs @ c)[None, :, None] + ((V @ W.T) @ Hs.T)[:, :, None] \
+            + (X @ d)[None, None, :] + ((V @ U.T) @ X.T)[:, None, :]
+        m = joint.max(axis=1, keepdims=True)
+        return (m + np.log(np.exp(joint - m).sum(axis=1, keepdims=True)))[:, 0, :]
+    phi = np.exp(L(am) / 2) * np.exp(0.5j * L(ph))
+    return phi @ phi.conj().T
+
+
+def cnp(t):
+    """real-pair complex tensor -> numpy complex array"""
+    a = t.detach().numpy()
+    return a[0] + 1j * a[1]
+
+
+def cclose(a, b, tol=1e-9):
+    a, b = np.asarray(a), np.asarray(b)
+    return a.shape == b.shape and bool(np.all(np.abs(a - b) <= tol * (1.0 + np.abs(b))))
+
+
+def xlogy(t, q):
+    """sum_x t_x log(t_x / q_x) with 0 log 0 = 0"""
+    t, q = np.asarray(t, float), np.asarray(q, float)
+    m = t > 1e-300
+    return float(np.sum(t[m] * (np.log(t[m]) - np.log(q[m]))))
+
+
+def onehot_case(ctx, case):
+    """position k of every array the library PRODUCES from its generated space (psi(space), probability(space), rho(space, space),
+    rotate_psi / rotate_rho without an explicit psi= / rho=) and ACCEPTS (a target that is the basis state e_k, in fidelity and KL,
+    also rotated): each must denote the state bits_of(k). All expectations are computed here from the PARAMETERS with rows built by
+    integer arithmetic (qc.all_states), dense np.kron unitaries written out above, and a brute-force partial trace — no library call."""
+    from qucumber.utils import training_statistics as ts
+    from qucumber.utils import unitaries as un
+    kind, n, h, a, k, l, basis = case["state"], case["n"], case["h"], case.get("a", 0), case["k"], case["l"], case["basis"]
+    am, ph = case["am"], case.get("ph")
+    D = 2 ** n
+    rows = qc.all_states(n)
+    if kind == "pos":
+        st = qc.make_positive(n, h, am)
+    elif kind == "cplx":
+        st = qc.make_complex(n, h, am, ph)
+    else:
+        st = qc.make_density(n, h, a, am, ph)
+    U = np.array([[1.0 + 0j]])
+    for b in basis:
+        U = np.kron(U, UNITARY[b])
+    sub = dict(case)
+    ctx.case({"k": "onehot", **case}, nontrivial=n >= 2 and len(set(basis)) > 1 and k != l,
+             sample={"op": "one-hot at k through psi/rho/probability/rotate_*/fidelity/KL", "state": kind, "n": n, "k": k, "l": l, "basis": basis})
+    ctx.count(f"onehot:{kind}"); ctx.count(f"onehot:n={n}")
+    space = st.generate_hilbert_space()
+    th = "C19_position_k, C19_position_k_states, C19_row_is_binary_expansion"
+    tha = "C19_position_k, C19_kron_index_finProd (C04_rotate_psi / C04_index_convention for the rotation)"
+
+    def orc(name, ok, detail=None, sig=None, theorem=th):
+        ctx.oracle(f"one-hot[{kind}]: {name}", bool(ok), sub, detail=detail, sig=f"onehot/{sig or name.split('(')[0].split(' ')[0]}", theorem=theorem)
+
+    e_k = np.zeros(D)
+    e_k[k] = 1.0
+    if kind in ("pos", "cplx"):
+        psi = ref_wave(am, ph if kind == "cplx" else None, n, h, rows)
+        Z = float(np.sum(np.abs(psi) ** 2))
+        prob = np.abs(psi) ** 2
+        got = cnp(st.psi(space))
+        orc("psi(space)[k] == psi at the big-endian expansion of k, every k", cclose(got, psi), sig="psi",
+            detail={"first_bad": next((i for i in range(D) if not cclose(got[i:i + 1], psi[i:i + 1])), None), "impl_k": str(got[k]), "want_k": str(psi[k])})
+        one = cnp(st.psi(st.subspace_vector(k)).reshape(2, -1))
+        orc("psi(subspace_vector(k)) == psi(space)[k]", cclose(one.ravel(), psi[k:k + 1]), sig="psi-sub", detail={"impl": str(one), "want": str(psi[k])})
+        gp = st.probability(space).detach().numpy()
+        orc("probability(space)[k] == |psi_k|^2", cclose(gp, prob), sig="probability")
+        r = cnp(un.rotate_psi(st, basis, space))
+        orc("rotate_psi(basis, space) without psi= == kron(U_0..U_{n-1}) psi", cclose(r, U @ psi), sig="rotate_psi", theorem=tha,
+            detail={"impl": [str(x) for x in r[:4]], "want": [str(x) for x in (U @ psi)[:4]]})
+        tgt = torch.tensor(np.stack([e_k, 0 * e_k]), dtype=torch.double)
+        F = ts.fidelity(st, tgt, space if case["pass_space"] else None)
+        orc("fidelity(target = e_k) == |psi_k|^2 / Z", abs(F - prob[k] / Z) <= 1e-9 * (1 + prob[k] / Z), sig="fidelity", theorem=tha,
+            detail={"impl": F, "want": prob[k] / Z})
+        K = ts.KL(st, tgt, space if case["pass_space"] else None)
+        orc("KL(target = e_k) == -log(|psi_k|^2 / Z)", abs(K + np.log(prob[k] / Z)) <= 1e-8 * (1 + abs(np.log(prob[k] / Z))), sig="KL", theorem=tha,
+            detail={"impl": K, "want": -float(np.log(prob[k] / Z))})
+        t_r = np.abs(U[:, k]) ** 2
+        q_r = np.abs(U @ psi) ** 2 / Z
+        Kb = ts.KL(st, tgt, space, bases=[basis])
+        orc("KL(target = e_k, bases=[basis]) == KL(|U[:,k]|^2 || |U psi|^2 / Z)", abs(Kb - xlogy(t_r, q_r)) <= 1e-8 * (1 + abs(xlogy(t_r, q_r))), sig="KL-rotated",
+            theorem=tha, detail={"impl": Kb, "want": xlogy(t_r, q_r)})
+        impl_arrays = {"psi": got, "prob": gp}
+    else:
+        R = ref_rho(am, ph, n, h, a, rows)
+        Z = float(np.trace(R).real)
+        prob = np.diag(R).real
+        got = cnp(st.rho(space, space))
+        ctx.count("onehot:dm_offdiag_imag>1e-3" if np.max(np.abs(R.imag)) > 1e-3 * np.max(np.abs(R)) else "onehot:dm_offdiag_imag_small")
+        orc("rho(space, space)[k, l] == rho(row k, row l), every k, l (row index = first argument)", cclose(got, R), sig="rho",
+            detail={"impl_kl": str(got[k, l]), "want_kl": str(R[k, l]), "impl_lk": str(got[l, k])})
+        one = cnp(st.rho(space[k:k + 1], space[l:l + 1]).reshape(2, -1))
+        orc("rho(space[k:k+1], space[l:l+1]) == rho(space, space)[k, l]", cclose(one.ravel(), R[k:k + 1, l]), sig="rho-pair",
+            detail={"impl": str(one), "want": str(R[k, l])})
+        gp = st.probability(space).detach().numpy()
+        orc("probability(space)[k] == rho_kk", cclose(gp, prob), sig="probability")
+        r = cnp(un.rotate_rho(st, basis, space))
+        orc("rotate_rho(basis, space) without rho= == U rho U^H", cclose(r, U @ R @ U.conj().T), sig="rotate_rho", theorem=tha,
+            detail={"impl_kl": str(r[k, l]), "want_kl": str((U @ R @ U.conj().T)[k, l])})
+        E = np.zeros((D, D))
+        E[k, k] = 1.0
+        tgt = torch.tensor(np.stack([E, 0 * E]), dtype=torch.double)
+        F = ts.fidelity(st, tgt, space if case["pass_space"] else None)
+        orc("fidelity(target = |k><k|) == rho_kk / Z", abs(F - prob[k] / Z) <= 1e-8 * (1 + prob[k] / Z), sig="fidelity", theorem=tha,
+            detail={"impl": float(F), "want": prob[k] / Z})
+        K = ts.KL(st, tgt, space if case["pass_space"] else None)
+        orc("KL(target = |k><k|) == -log(rho_kk / Z)", abs(K + np.log(prob[k] / Z)) <= 1e-8 * (1 + abs(np.log(prob[k] / Z))), sig="KL", theorem=tha,
+            detail={"impl": K, "want": -float(np.log(prob[k] / Z))})
+        t_r = np.abs(U[:, k]) ** 2
+        q_r = np.diag(U @ R @ U.conj().T).real / Z
+        Kb = ts.KL(st, tgt, space, bases=[basis])
+        orc("KL(target = |k><k|, bases=[basis]) == KL(|U[:,k]|^2 || diag(U rho U^H) / Z)", abs(Kb - xlogy(t_r, q_r)) <= 1e-8 * (1 + abs(xlogy(t_r, q_r))),
+            sig="KL-rotated", theorem=tha, detail={"impl": Kb, "want": xlogy(t_r, q_r)})
+        impl_arrays = {"rho": got, "prob": gp}
+    if ctx.driver is not None:
+        args = {"kind": kind, "n": n, "h": h, "am": qc.pbits(am)}
+        if kind != "pos":
+            args["ph"] = qc.pbits(ph)
+        if kind == "dm":
+            args["a"] = a
+        m = ctx.driver.call("c19.arrays", **args)
+        sc = float(max(np.max(np.abs(prob)), 1e-30))
+        ctx.point(f"one-hot[{kind}]: probability(space)", "property", impl_arrays["prob"].tolist(), unbits(m["prob"]).tolist(), sub, scale=sc, sig="onehot/probability", theorem=th)
+        if kind == "dm":
+            mre = np.array([unbits(r["re"]) for r in m["rho"]])
+            mim = np.array([unbits(r["im"]) for r in m["rho"]])
+            ctx.point("one-hot[dm]: rho(space, space)", "property", np.concatenate([impl_arrays["rho"].real.ravel(), impl_arrays["rho"].imag.ravel()]).tolist(),
+                      np.concatenate([mre.ravel(), mim.ravel()]).tolist(), sub, scale=sc, sig="onehot/rho", theorem=th)
+        else:
+            ctx.point(f"one-hot[{kind}]: psi(space)", "property", np.concatenate([impl_arrays["psi"].real, impl_arrays["psi"].imag]).tolist(),
+                      np.concatenate([unbits(m["psi"]["re"]), unbits(m["psi"]["im"])]).tolist(), sub, scale=float(np.sqrt(sc)), sig="onehot/psi", theorem=th)
+
+
+def gen_onehot_case(rng, thorough):
+    kind = rng.choice(["pos", "cplx", "dm", "dm"])
+    n = rng.randrange(1, 5 if thorough else 4)
+    h = rng.randrange(1, 4)
+    a = rng.randrange(1, 3)
+    sc = rng.choice([0.3, 0.7, 1.0])
+    D = 2 ** n
+    k = rng.randrange(D)
+    l = rng.choice([x for x in range(D) if x != k]) if D > 1 else k
+    case = {"kind": "onehot", "state": kind, "n": n, "h": h, "k": k, "l": l, "basis": "".join(rng.choice("XYZ") for _ in range(n)),
+            "pass_space": rng.random() < 0.5}
+    if kind == "dm":
+        case["a"] = a
+        case["am"] = qc.rand_prbm_params(rng, n, h, a, sc)
+        case["ph"] = qc.rand_prbm_params(rng, n, h, a, sc)
+    else:
+        case["am"] = qc.rand_rbm_params(rng, n, h, sc)
+        if kind == "cplx":
+            case["ph"] = qc.rand_rbm_params(rng, n, h, sc * 2)
+    return case
+
+
+# ================================================================= part 1d: arguments outside the documented domain (outcome classes)
+def intarg_case(ctx, case):
+    """negative / beyond-int64 `num`, negative `size`, size > 62. The property speaks about indices 0 <= k and sizes >= 1 only, so:
+      * 0 <= num < 2^63, size >= 1 (ANY size, also > 62 where `1 << i` wraps in int64): the vector must be the big-endian low bits of num —
+        property-level oracle + model point (C19_subspace_int64);
+      * num >= 2^63: the call may be refused (any exception) or answer CORRECTLY — a wrong vector is a violation, nothing else is;
+      * negative num, negative size: OUTCOME CLASSES only. What the implementation does (two's complement bits / empty vector / which
+        exception) is counted and compared with the int64 model (QV.Model.HilbertInt) in counters and a note — never a property or
+        auxiliary point, because another correct implementation may legitimately answer differently there."""
+    kind, nv, num, size = case["state"], case["nv"], case["num"], case["size"]
+    st = get_state(kind, nv)
+    ctx.case({"k": "intarg", **case}, nontrivial=True, sample={"op": "subspace_vector / generate_hilbert_space with out-of-domain integers", "num": num, "size": size})
+    try:
+        v = st.subspace_vector(num, size)
+        sub = v.to(torch.int64).tolist() if v.dim() == 1 else {"bad-rank": v.dim()}
+    except Exception as e:  # noqa: BLE001
+        sub = "raised:" + errname(e)
+    raised = isinstance(sub, str)
+    s_eff = size if size else nv
+    in64 = -2 ** 63 <= num < 2 ** 63
+    cls = "negsize" if s_eff < 0 else "negnum" if num < 0 else "beyond-int64" if not in64 else "size>62" if s_eff > 62 else "domain"
+    ctx.count(f"intarg:sub:{cls}=" + (sub if raised else "value"))
+    th = "C19_subspace_int64, C19_subspace_is_binary_expansion"
+    if num >= 0 and s_eff >= 0 and in64:
+        ctx.oracle("subspace_vector(num, size) == big-endian low bits of num (any size, also > 62)", sub == bits_of(num, s_eff), case,
+                   detail={"impl": sub, "want": bits_of(num, s_eff)}, sig="intarg/sub-bits", theorem=th)
+    elif num >= 0 and s_eff >= 0:
+        ctx.oracle("subspace_vector with an index beyond int64: refused or answered correctly, never a wrong vector", raised or sub == bits_of(num, s_eff), case,
+                   detail={"impl": sub, "want": bits_of(num, s_eff)}, sig="intarg/sub-beyond-int64", theorem=th)
+    g = None
+    if case.get("guard", True) and s_eff <= 12:
+        try:
+            sp = st.generate_hilbert_space(size)
+            g = "generated" if tuple(sp.shape) == (2 ** max(s_eff, 0), max(s_eff, 0)) else "generated-other-shape"
+        except Exception as e:  # noqa: BLE001
+            g = "raised:" + errname(e)
+        if s_eff < 0:
+            ctx.count(f"intarg:guard:negsize={g}")
+    if ctx.driver is not None:
+        m = ctx.driver.call("c19.intargs", num=num, size=size, nv=nv)
+        msub = "raised:OverflowError" if m["sub"] == "OverflowError" else m["sub"]
+        if num >= 0 and s_eff >= 0 and in64:
+            ctx.point("subspace_vector (int64 model)", "property", sub, msub, case, exact=True, sig=f"intarg/sub/{cls}", theorem=th)
+        else:
+            same = (msub == sub) or (raised and isinstance(msub, str))
+            ctx.count(f"intarg:model-{'agrees' if same else 'differs'}:{cls}")
+            if not same and sum(1 for x in ctx.notes if x.startswith("out-of-domain integers:")) < 5:
+                ctx.note(f"out-of-domain integers: subspace_vector({num}, {size}) implementation {sub} / int64 model {msub} (informational)")
+        if g is not None and s_eff < 0:
+            mg = m["guard"]
+            ctx.count("intarg:guard-model-" + ("agrees" if (isinstance(mg, str) and g.startswith("raised")) or (not isinstance(mg, str) and g == "generated") else "differs"))
+
+
+def gen_intarg_case(rng):
+    nv = rng.randrange(1, 6)
+    u = rng.random()
+    if u < 0.2:
+        num = rng.choice([2 ** 63, 2 ** 63 + rng.randrange(1000), 2 ** 64 + 5, -2 ** 63 - 1, -2 ** 70, 3 ** 50])
+        size = rng.choice([None, 0, 3, 64, -1])
+    elif u < 0.4:
+        num = rng.choice([-1, -2, -3, -2 ** 63, -rng.randrange(1, 2 ** 40), 2 ** 63 - 1])
+        size = rng.choice([None, 0, rng.randrange(1, 8), 62, 63, 64, 65, 70])
+    elif u < 0.6:
+        num = rng.choice([rng.randrange(2 ** 62), 2 ** 62, 2 ** 62 + 1, 2 ** 63 - 1, 5, 0])
+        size = rng.choice([61, 62, 63, 64, 65, 66, 80, 100, 128])
+    elif u < 0.8:
+        num = rng.choice([0, 5, rng.randrange(2 ** 20), -1])
+        size = -rng.randrange(1, 6)
+    else:
+        num = rng.randrange(2 ** 10)
+        size = rng.choice([None, 0, rng.randrange(1, 13), 21, 25])
+    return {"kind": "intarg", "state": rng.choice(["pos", "cplx", "dm"]), "nv": nv, "num": num, "size": size}
+
+
 # ================================================================= part 2: files
 LINE_SPLIT = re.compile(r"\r\n|\r|\n")
 
@@ -513,22 +785,24 @@ def indep_parse(text):
     return rows
 
 
-def squeeze_expect(rows, ndmin1=False):
-    """('error', kind) | ('arr', {"k":…, "v":…}) — what np.loadtxt should make of these rows, stated independently"""
+def squeeze_expect(rows, ndmin=0):
+    """('error', kind) | ('arr', {"k":…, "v":…}) — what np.loadtxt(…, ndmin=ndmin) should make of these rows, stated independently:
+    ndmin=2 keeps the (N, m) table for every N, m >= 1 (an empty file is (0, 1)); ndmin=0 drops axes of length one; ndmin=1 likewise but
+    never below one dimension."""
     if not rows:
-        return ("arr", {"k": "vec", "v": []})
+        return ("arr", {"k": "mat", "v": []}) if ndmin == 2 else ("arr", {"k": "vec", "v": []})
     m = len(rows[0])
     if any(len(r) != m for r in rows):
         return ("error", "ValueError")
-    a = np.array(rows, dtype=object).reshape(len(rows), m)
-    a = np.squeeze(a)
-    if ndmin1 and a.ndim == 0:
-        a = a.reshape(1)
-    if a.ndim == 0:
-        return ("arr", {"k": "scalar", "v": a.item()})
-    if a.ndim == 1:
-        return ("arr", {"k": "vec", "v": a.tolist()})
-    return ("arr", {"k": "mat", "v": a.tolist()})
+    if ndmin == 2:
+        return ("arr", {"k": "mat", "v": [list(r) for r in rows]})
+    if len(rows) == 1 and m == 1:
+        return ("arr", {"k": "vec", "v": [rows[0][0]]}) if ndmin == 1 else ("arr", {"k": "scalar", "v": rows[0][0]})
+    if len(rows) == 1:
+        return ("arr", {"k": "vec", "v": list(rows[0])})
+    if m == 1:
+        return ("arr", {"k": "vec", "v": [r[0] for r in rows]})
+    return ("arr", {"k": "mat", "v": [list(r) for r in rows]})
 
 
 def pyfloat(tok):
@@ -570,24 +844,29 @@ def np_arr(a, conv):
 
 
 def canon_items(res):
-    """list returned by the real loader -> canonical items"""
+    """list returned by the real loader -> canonical items. Only what the property constrains is kept: the numeric VALUES (as
+    doubles — single-precision values widen exactly, so the tensor's own float dtype does not matter) in their layout, and the
+    basis tokens as strings in their layout; tensor / ndarray / list containers are all accepted."""
     items = []
     for i, x in enumerate(res):
-        if isinstance(x, torch.Tensor):
-            if x.dtype != torch.double:
-                items.append({"t": "bad-dtype", "dtype": str(x.dtype)})
-            elif i == 0:
+        if isinstance(x, torch.Tensor) and x.dtype in (torch.double, torch.float32):
+            x = x.detach().to(torch.double)
+            if i == 0:
                 items.append({"t": "num", "a": np_arr(x.numpy(), f2b)})
-            else:
+            elif x.dim() >= 1 and x.shape[0] == 2:
                 items.append({"t": "cplx", "re": np_arr(x[0].numpy(), f2b), "im": np_arr(x[1].numpy(), f2b)})
-        elif isinstance(x, np.ndarray) and x.dtype.kind == "U":
-            items.append({"t": "str", "a": np_arr(x, str)})
+            else:
+                items.append({"t": "not-a-real-pair", "shape": list(x.shape)})
+        elif isinstance(x, torch.Tensor):
+            items.append({"t": "bad-dtype", "dtype": str(x.dtype)})
+        elif isinstance(x, (np.ndarray, list, tuple)) and np.asarray(x).dtype.kind in ("U", "S", "O"):
+            items.append({"t": "str", "a": np_arr(np.asarray(x), lambda t: t.decode() if isinstance(t, bytes) else str(t))})
         else:
             items.append({"t": "unknown", "type": type(x).__name__})
     return items
 
 
-def num_expect(text):
+def num_expect(text, ndmin=0):
     """expected numeric array for a file text, from the independent parse: ('error', kind) | ('arr', Arr of f64 bits)"""
     rows = indep_parse(text)
     vals = []
@@ -599,13 +878,13 @@ def num_expect(text):
                 return ("error", "ValueError")
             vr.append(f32bits(v))
         vals.append(vr)
-    return squeeze_expect(vals)
+    return squeeze_expect(vals, ndmin)
 
 
 def expect_load(case):
     """independent statement of what load_data / load_data_DM must return for the given file texts"""
     f = case["files"]
-    st, s = num_expect(f["samples"])
+    st, s = num_expect(f["samples"], ndmin=2)     # F16: the samples keep their (N, n) shape, also for N = 1 or n = 1
     if st == "error":
         return {"error": s}
     items = [{"t": "num", "a": s}]
@@ -635,17 +914,19 @@ def expect_load(case):
             if shape(parts["re"]) != shape(parts["im"]):
                 return {"error": "RuntimeError"}
             items.append({"t": "cplx", "re": parts["re"], "im": parts["im"]})
-    for key, nd in (("tr_bases", False), ("bases", True)):
+    for key, nd in (("tr_bases", 2), ("bases", 1)):   # per-sample bases: (N, n) table (F16); list of bases: ndmin=1 (word form of tutorial 3)
         if f.get(key) is not None:
-            st, p = squeeze_expect(indep_parse(f[key]), ndmin1=nd)
+            st, p = squeeze_expect(indep_parse(f[key]), ndmin=nd)
             if st == "error":
                 return {"error": p}
             items.append({"t": "str", "a": p})
     return {"items": items}
 
 
-def load_case(ctx, case):
-    """write the file texts, read them back through the real loader, compare with model + independent expectation"""
+def load_case(ctx, case, report=None):
+    """write the file texts, read them back through the real loader, compare with model + independent expectation
+    (report: the replayable description to attach to failures instead of `case` — used for the very large generated file, whose
+    text is regenerated from a seed; details are then reduced to the first difference)"""
     from qucumber.utils import data as qdata
     f = case["files"]
     d = tmpdir()
@@ -667,25 +948,13 @@ def load_case(ctx, case):
     except Exception as e:  # noqa: BLE001
         impl = {"error": errname(e)}
     want = expect_load(case)
-    valid = "items" in want
-    nontriv = bool(valid and case.get("nontrivial"))
-    ctx.case({"k": "load", **case}, nontrivial=nontriv,
-             sample={"op": case["fn"], "files": {k: (v[:60] if v else v) for k, v in f.items()}, "tags": case.get("tags")})
-    ctx.count(f"load:{case['fn']}")
-    ctx.count("load:result=" + ("ok" if valid else want["error"]))
-    for tg in case.get("tags", []):
-        ctx.count(f"load:tag={tg}")
-    th = TH["load"] if case["fn"] == "load_data" else TH["loaddm"]
-    sig = f"{case['fn']}/" + ("values" if valid else "error")
-    ctx.oracle(f"{case['fn']} == independent parse of the files", impl == want, case, sig=sig, theorem=th,
-               detail={"first_diff": first_diff(impl, want), "impl": impl, "want": want})
-    # the logical tables the generator intended to write (valid cases only): "exactly as written"
-    lg = case.get("logical")
-    if lg and valid and "items" in impl:
-        exp_items = logical_items(case)
-        ctx.oracle(f"{case['fn']} == tables as written", impl["items"] == exp_items, case, sig=f"{case['fn']}/as-written", theorem=th,
-                   detail={"first_diff": first_diff(impl["items"], exp_items), "impl": impl["items"], "want": exp_items})
-    if ctx.driver is not None:
+    rc = case if report is None else report
+
+    def det(a, b):
+        d0 = {"first_diff": first_diff(a, b)}
+        return d0 if report is not None else {**d0, "impl": a, "want": b}
+
+    def model_result():
         nums = {}
         for key in ("samples", "psi", "re", "im"):
             if f.get(key):
@@ -695,30 +964,86 @@ def load_case(ctx, case):
                         if v is not None:
                             nums[t] = f2b(v)
         args = {k: f.get(k) for k in (("samples", "psi", "tr_bases", "bases") if case["fn"] == "load_data" else ("samples", "re", "im", "tr_bases", "bases"))}
-        m = ctx.driver.call("c19.load_data" if case["fn"] == "load_data" else "c19.load_data_dm", nums=nums, **args)
-        ctx.point(case["fn"], "property" if valid else "aux", impl, m, case, exact=True, sig=sig, theorem=th)
-        tk = ctx.driver.call("c19.tokenize", text=f["samples"])
-        ctx.point("tokenize(samples) vs independent parse", "aux", indep_parse(f["samples"]), tk, case, exact=True, sig="tokenize")
+        return ctx.driver.call("c19.load_data" if case["fn"] == "load_data" else "c19.load_data_dm", nums=nums, **args)
+
+    empty = any(v is not None and not indep_parse(v) for v in f.values())
+    valid = "items" in want and not empty
+    ctx.count(f"load:{case['fn']}")
+    for tg in case.get("tags", []):
+        ctx.count(f"load:tag={tg}")
+    if not valid:
+        # A MALFORMED set of files (ragged table, unparsable token, empty file, a target that is not a 2-column table, only one of the two
+        # matrix parts, parts of different shapes). The property says what the loaders return for the tables written in the files; it does
+        # not say what happens here (which exception, or whether a lenient implementation accepts the input). Informational only: the
+        # outcome class is counted and compared with the model's outcome class in a counter / note — never a property or auxiliary point.
+        ctx.case({"k": "load", **rc}, nontrivial=False,
+                 sample={"op": case["fn"], "files": {k: (v[:60] if v else v) for k, v in f.items()}, "tags": case.get("tags")})
+        ctx.count("load:malformed:" + ("raised" if "error" in impl else "returned-a-value"))
+        ctx.count("load:malformed-exception=" + str(impl.get("error")))
+        if ctx.driver is not None:
+            m = model_result()
+            same = ("error" in m) == ("error" in impl) and m.get("error") == impl.get("error") if "error" in impl else m == impl
+            ctx.count("load:malformed:model-" + ("agrees" if same else "differs"))
+            if not same and sum(1 for x in ctx.notes if x.startswith("malformed files:")) < 5:
+                ctx.note(f"malformed files: implementation {impl.get('error', 'returned a value')} / model {m.get('error', 'returns a value')} "
+                         f"(informational; tags {case.get('tags')})")
+        return
+    ctx.count("load:result=ok")
+    nontriv = bool(case.get("nontrivial"))
+    ctx.case({"k": "load", **rc}, nontrivial=nontriv,
+             sample={"op": case["fn"], "files": {k: (v[:60] if v else v) for k, v in f.items()}, "tags": case.get("tags")})
+    th = TH["load"] if case["fn"] == "load_data" else TH["loaddm"]
+    sig = f"{case['fn']}/values"
+    ctx.oracle(f"{case['fn']} == independent parse of the files", impl == want, rc, sig=sig, theorem=th,
+               detail=det(impl, want))
+    # the logical tables the generator intended to write: "exactly as written"
+    lg = case.get("logical")
+    if lg and "items" in impl:
+        exp_items = logical_items(case)
+        ctx.oracle(f"{case['fn']} == tables as written", impl["items"] == exp_items, rc, sig=f"{case['fn']}/as-written", theorem=th,
+                   detail=det(impl["items"], exp_items))
+    if ctx.driver is not None:
+        m = model_result()
+        if report is not None and impl != m:      # keep the report small: the first difference instead of both 60 000-row values
+            ctx.point(case["fn"], "property", first_diff(impl, m), None, rc, exact=True, sig=sig, theorem=th)
+        else:
+            ctx.point(case["fn"], "property", impl, m, rc, exact=True, sig=sig, theorem=th)
+        if report is None:
+            tk = ctx.driver.call("c19.tokenize", text=f["samples"])
+            ctx.point("tokenize(samples) vs independent parse", "aux", indep_parse(f["samples"]), tk, case, exact=True, sig="tokenize")
 
 
 def logical_items(case):
+    """the tables the generator meant to write, "exactly as written" — stated WITHOUT np.squeeze: an N x n table of samples / per-sample
+    bases is the 2-D array of shape (N, n) whatever N, n >= 1 are (F16); a target matrix is its D x D table (D = 2^n >= 2); the psi
+    target is the 2 x rows real-pair layout; the list of bases (`bases_path`) is a 2-D table, or — one basis WORD per line, the form of
+    tutorial 3 (and, residually, a single row of letters) — the 1-D list of the tokens."""
     lg = case["logical"]
 
-    def numtab(tab):
-        return squeeze_expect([[f32bits(float(x)) for x in r] for r in tab])[1]
+    def table(tab, conv):
+        assert tab and all(len(r) == len(tab[0]) >= 1 for r in tab)
+        return {"k": "mat", "v": [[conv(x) for x in r] for r in tab]}
 
-    items = [{"t": "num", "a": numtab(lg["samples"])}]
+    def num(x):
+        return f32bits(float(x))
+
+    items = [{"t": "num", "a": table(lg["samples"], num)}]
     if case["fn"] == "load_data":
         if lg.get("psi") is not None:
             items.append({"t": "cplx", "re": {"k": "vec", "v": [f32bits(r[0]) for r in lg["psi"]]},
                           "im": {"k": "vec", "v": [f32bits(r[1]) for r in lg["psi"]]}})
     else:
         if lg.get("re") is not None and lg.get("im") is not None:
-            items.append({"t": "cplx", "re": numtab(lg["re"]), "im": numtab(lg["im"])})
+            assert len(lg["re"]) >= 2 and len(lg["im"]) >= 2
+            items.append({"t": "cplx", "re": table(lg["re"], num), "im": table(lg["im"], num)})
     if lg.get("tr_bases") is not None:
-        items.append({"t": "str", "a": squeeze_expect(lg["tr_bases"])[1]})
+        items.append({"t": "str", "a": table(lg["tr_bases"], str)})
     if lg.get("bases") is not None:
-        items.append({"t": "str", "a": squeeze_expect(lg["bases"], ndmin1=True)[1]})
+        rows = lg["bases"]
+        if len(rows) <= 1 or len(rows[0]) <= 1:
+            items.append({"t": "str", "a": {"k": "vec", "v": [t for r in rows for t in r]}})
+        else:
+            items.append({"t": "str", "a": table(rows, str)})
     return items
 
 
@@ -842,7 +1167,7 @@ def gen_bases_rows(rng, N, n, alphabet, p_allz=None, multi=0.0):
 
 def gen_load_case(rng, valid_only=False):
     fn = rng.choice(["load_data", "load_data", "load_data_DM"])
-    shape_kind = rng.choices(["big", "one-row", "one-col", "single"], weights=[8, 1, 1, 0.5])[0]
+    shape_kind = rng.choices(["big", "one-row", "one-col", "single"], weights=[6, 2, 2, 1])[0]   # N = 1 and n = 1 are inside "any N, n"
     if shape_kind == "big":
         N, n = rng.randrange(2, 9), rng.randrange(2, 7)
     elif shape_kind == "one-row":
@@ -914,7 +1239,7 @@ def gen_load_case(rng, valid_only=False):
     else:
         files["bases"] = None
     case = {"fn": fn, "files": files, "logical": logical, "tags": sorted(set(tags)),
-            "nontrivial": shape_kind == "big" and (many_digits or not plain)}
+            "nontrivial": many_digits or not plain or shape_kind != "big"}
     # malformed stream
     if not valid_only and rng.random() < 0.1:
         key = rng.choice([k for k, v in files.items() if v is not None])
@@ -937,6 +1262,31 @@ def gen_load_case(rng, valid_only=False):
         case["nontrivial"] = False
         case["tags"] = sorted(set(case["tags"] + [f"malformed={kindm}:{key}"]))
     return case
+
+
+def big_file_case(ctx, bcase):
+    """one large file (np.loadtxt reads in chunks of 50 000 lines): 60 000 samples x 2 sites with a per-sample bases file, a comment line
+    and a blank line after the first chunk; through load_data, the model, the as-written oracle and extract_refbasis_samples.
+    bcase = {"kind": "bigfile", "seed": s, "N": N}: everything is regenerated from the seed (replayable without storing the text)."""
+    N, n = bcase.get("N", 60000), 2
+    r = random.Random(bcase["seed"])
+    stab = [[r.randrange(2) for _ in range(n)] for _ in range(N)]
+    brow = [["Z"] * n if r.random() < 0.5 else [r.choice("XYZ") for _ in range(n)] for _ in range(N)]
+
+    def text(rows):
+        out = []
+        for i, rr in enumerate(rows):
+            if i == 50001:
+                out.append("# after the first chunk")
+                out.append("")
+            out.append(" ".join(str(x) for x in rr))
+        return "\n".join(out) + "\n"
+    case = {"kind": "load", "fn": "load_data", "tags": [f"big-file-{N}"], "nontrivial": True,
+            "files": {"samples": text(stab), "psi": None, "tr_bases": text(brow), "bases": None},
+            "logical": {"samples": stab, "tr_bases": brow}}
+    load_case(ctx, case, report=bcase)
+    run_chain(ctx, {"kind": "chain", "samples_text": case["files"]["samples"], "bases_text": case["files"]["tr_bases"], "samples": stab, "bases": brow},
+              report=bcase)
 
 
 # ---------------------------------------------------------------- extract_refbasis_samples
@@ -965,17 +1315,21 @@ def extract_case(ctx, case):
         nz = len(keep)
         ctx.count("extract:pattern=" + ("none" if nz == 0 else "all" if nz == len(bases) else "some"))
     else:
-        want = {"error": "IndexError"}
-        nz = -1
-        ctx.count("extract:malformed")
-    ctx.case({"k": "extract", **case}, nontrivial=wellformed and 0 < nz < len(bases),
+        # a call the property does not speak about (bases not a 2-D table, different numbers of sample and basis rows): the outcome —
+        # which exception, or a lenient answer — is counted and compared with the model in a counter only, never as a point
+        ctx.case({"k": "extract", **case}, nontrivial=False)
+        ctx.count("extract:malformed:" + (impl.get("error") or "returned-a-value"))
+        if ctx.driver is not None:
+            m = ctx.driver.call("c19.extract", samples=np_arr(np.array(samples, dtype=np.int64), int), bases=np_arr(ba, str))
+            ctx.count("extract:malformed:model-" + ("agrees" if m == impl else "differs"))
+        return
+    ctx.case({"k": "extract", **case}, nontrivial=0 < nz < len(bases),
              sample={"op": "extract_refbasis_samples", "N": len(bases), "bases": bases[:3] if isinstance(bases, list) else bases, "form": form})
     ctx.oracle("extract_refbasis_samples == rows with all-Z basis, in order", impl == want, case,
-               sig="extract/" + ("value" if wellformed else "error"), theorem=TH["ref"], detail={"impl": impl, "want": want})
+               sig="extract/value", theorem=TH["ref"], detail={"impl": impl, "want": want})
     if ctx.driver is not None:
         m = ctx.driver.call("c19.extract", samples=np_arr(np.array(samples, dtype=np.int64), int), bases=np_arr(ba, str))
-        ctx.point("extract_refbasis_samples", "property" if wellformed else "aux", impl, m, case, exact=True,
-                  sig="extract/" + ("value" if wellformed else "error"), theorem=TH["ref"])
+        ctx.point("extract_refbasis_samples", "property", impl, m, case, exact=True, sig="extract/value", theorem=TH["ref"])
 
 
 def gen_extract_case(rng):
@@ -1008,31 +1362,33 @@ def gen_extract_case(rng):
 def chain_case(ctx, rng):
     """end to end: files -> load_data -> extract_refbasis_samples, vs the logical tables"""
     from qucumber.utils import data as qdata
-    N, n = rng.randrange(2, 10), rng.randrange(2, 6)
+    N, n = rng.choice([1, rng.randrange(2, 10), rng.randrange(2, 10)]), rng.choice([1, rng.randrange(2, 6), rng.randrange(2, 6)])   # single sample / single site included (F16)
     stab, stoks = gen_samples(rng, N, n)
-    rows = gen_bases_rows(rng, N, n, rng.choice(ALPHABETS), p_allz=rng.choice([0.3, 0.6]))
+    rows = gen_bases_rows(rng, N, n, rng.choice(ALPHABETS), p_allz=rng.choice([0.3, 0.6, 1.0]))
     st, _ = render(rng, stoks)
     bt, _ = render(rng, rows)
     case = {"kind": "chain", "samples_text": st, "bases_text": bt, "samples": stab, "bases": rows}
     run_chain(ctx, case)
 
 
-def run_chain(ctx, case):
+def run_chain(ctx, case, report=None):
     from qucumber.utils import data as qdata
+    rc = case if report is None else report
     d = tmpdir()
     ps, pb = os.path.join(d, "chain_s.txt"), os.path.join(d, "chain_b.txt")
     open(ps, "w", newline="").write(case["samples_text"])
     open(pb, "w", newline="").write(case["bases_text"])
-    ctx.case({"k": "chain", **case}, nontrivial=True)
-    ctx.count("chain")
+    ctx.case({"k": "chain", **rc}, nontrivial=True)
+    ctx.count("chain"); ctx.count(f"chain:N={'1' if len(case['samples']) == 1 else '>1'},n={'1' if len(case['samples'][0]) == 1 else '>1'}")
     try:
         s, b = qdata.load_data(ps, tr_bases_path=pb)
         z = qdata.extract_refbasis_samples(s, b).to(torch.int64).tolist()
     except Exception as e:  # noqa: BLE001
         z = {"error": errname(e)}
     want = [r for r, br in zip(case["samples"], case["bases"]) if all(t == "Z" for t in br)]
-    ctx.oracle("load_data + extract_refbasis_samples == all-Z rows as written", z == want, case, sig="chain", theorem=TH["ref"],
-               detail={"impl": z, "want": want})
+    ctx.oracle("load_data + extract_refbasis_samples == all-Z rows as written (2-D, also for one sample / one site)", z == want, rc, sig="chain",
+               theorem="C19_load_then_refbasis, C19_refbasis",
+               detail={"impl": z, "want": want} if report is None else {"first_diff": first_diff(z, want)})
 
 
 # ================================================================= drivers of the run
@@ -1107,7 +1463,19 @@ def run_all(ctx, thorough, scale=1):
             case["rho_re"] = [[g() for _ in range(D)] for _ in range(D)]
             case["rho_im"] = [[g() for _ in range(D)] for _ in range(D)]
         kron_case(ctx, case)
+    # ---- (d') one-hot at k through every producing / accepting entry point
+    for _ in range((150 if thorough else 24) * scale):
+        onehot_case(ctx, gen_onehot_case(rng, thorough))
+    # ---- (d'') out-of-domain integer arguments as outcome classes
+    for c in [{"kind": "intarg", "state": "pos", "nv": 3, "num": -1, "size": 3}, {"kind": "intarg", "state": "dm", "nv": 2, "num": 5, "size": -1},
+              {"kind": "intarg", "state": "cplx", "nv": 2, "num": 2 ** 63, "size": 4}, {"kind": "intarg", "state": "pos", "nv": 2, "num": 2 ** 62 + 1, "size": 65},
+              {"kind": "intarg", "state": "pos", "nv": 4, "num": -2 ** 63, "size": 64}]:
+        intarg_case(ctx, c)
+    for _ in range((150 if thorough else 25) * scale):
+        intarg_case(ctx, gen_intarg_case(rng))
     # ---- (e) files
+    if thorough and scale == 1:
+        big_file_case(ctx, {"kind": "bigfile", "seed": rng.randrange(1 << 30), "N": 60000})
     for _ in range((2000 if thorough else 150) * scale):
         c = gen_load_case(rng)
         c["kind"] = "load"
@@ -1156,6 +1524,12 @@ def replay(ctx, case):
             index_case(ctx, case)
         elif k == "kron":
             kron_case(ctx, case)
+        elif k == "onehot":
+            onehot_case(ctx, case)
+        elif k == "intarg":
+            intarg_case(ctx, case)
+        elif k == "bigfile":
+            big_file_case(ctx, case)
         elif k == "load":
             load_case(ctx, case)
         elif k == "extract":
